@@ -462,3 +462,55 @@ Lemma q_view_other_grid : forall X sc off s o X', (0 < s)%Q ->
 Proof.
   intros X sc off s o X' Hs H. apply q_checked_ok in H. destruct H as [-> F]. split; [exact F|]. apply q_half_step. exact Hs.
 Qed.
+
+(* ---- round 6: augmented assignments (+=, -=, *=, /=) on scaled views ---- *)
+(* the views define no in-place operator: `las.<axis>[idx] op= d` evaluates the view's binary operator on the coordinates
+   presented - plain arithmetic, regenerated from ArrayView.__add__ ... - and assigns the result back by the same route *)
+Lemma vsrc_selfop_vals : forall T present d s a idx g ds,
+  vsrc_vals T present d s (VSelfOp a idx g ds) = map2 g (pick (presented T present d s a) d idx) ds.
+Proof. reflexivity. Qed.
+
+Lemma view_ops_shape :
+  gen_view_inplace_falls_back = true
+  /\ (forall x y, f_view_op BAdd x y = f_add x y) /\ (forall x y, f_view_op BSub x y = f_sub x y)
+  /\ (forall x y, f_view_op BMul x y = f_mul x y) /\ (forall x y, f_view_op BDiv x y = f_div x y)
+  /\ (forall x y, q_view_op BAdd x y = x + y)%Q /\ (forall x y, q_view_op BSub x y = x - y)%Q
+  /\ (forall x y, q_view_op BMul x y = x * y)%Q /\ (forall x y, q_view_op BDiv x y = x / y)%Q.
+Proof. repeat split. Qed.
+
+Lemma inplace_routes : forall T present store restore teqb d ss a idx g ds,
+  let v := VSelfOp a idx g ds in
+  let vals := map2 g (pick (presented T present d (base ss) a) d idx) ds in
+  sstep T present store restore teqb d ss (SAttr a v) = with_base T ss (step T present store restore teqb d (base ss) (Assign a vals))
+  /\ sstep T present store restore teqb d ss (SItem a v) = with_base T ss (lasdata_assign T store d false (base ss) a vals)
+  /\ sstep T present store restore teqb d ss (SRecAttr a v) = with_base T ss (step T present store restore teqb d (base ss) (RecAssign a vals))
+  /\ sstep T present store restore teqb d ss (SView a idx v) = with_base T ss (assign_view T store d (base ss) a idx vals).
+Proof. intros. repeat split; reflexivity. Qed.
+
+(* a non-finite operand (nan, inf; also x * inf, x / 0): the result is non-finite whatever the coordinate, a non-finite value
+   is refused by the range test (OverflowError), and a refused assignment stores nothing *)
+Lemma f_view_op_nonfinite : forall b x, f_view_op b x None = None.
+Proof. intros [] [x|]; reflexivity. Qed.
+
+Lemma f_store_nonfinite : forall s o, f_store_checked None s o = Err EOverflow.
+Proof. reflexivity. Qed.
+
+Lemma f_inplace_nonfinite_vals : forall s a i ir b,
+  exists r, vsrc_vals fl f_present None s (VSelfOp a (i :: ir) (f_view_op b) (repeat None (length (i :: ir)))) = None :: r.
+Proof.
+  intros. rewrite vsrc_selfop_vals. unfold map2, pick. cbn [map length repeat combine fst snd].
+  rewrite f_view_op_nonfinite. eexists. reflexivity.
+Qed.
+
+Lemma f_inplace_nonfinite : forall ss a i ir b,
+  let v := VSelfOp a (i :: ir) (f_view_op b) (repeat None (length (i :: ir))) in
+  (let r := f_sstep ss (SRecAttr a v) in base (fst r) = base ss /\ snd r = OErr EOverflow)
+  /\ (let r := f_sstep ss (SView a (i :: ir) v) in base (fst r) = base ss /\ snd r = OErr EOverflow)
+  /\ (let r := f_sstep ss (SAttr a v) in ints (base (fst r)) = ints (base ss) /\ snd r = OErr EOverflow)
+  /\ (let r := f_sstep ss (SItem a v) in ints (base (fst r)) = ints (base ss) /\ snd r = OErr EOverflow).
+Proof.
+  intros ss a i ir b v. destruct (f_inplace_nonfinite_vals (base ss) a i ir b) as [r E]. fold v in E.
+  unfold f_sstep. cbn [Scaling.sstep]. rewrite E. unfold with_base.
+  cbn [Scaling.step Scaling.assign_rec Scaling.assign_view Scaling.lasdata_assign Scaling.mapM fst snd base].
+  repeat split; reflexivity.
+Qed.
